@@ -897,12 +897,12 @@ type c04Plan struct {
 	boInit     time.Duration
 	boStep     time.Duration
 	realBo     bool
-	outcome    func(taskID int, failuresSoFar int) string // "ok" | "exit" | "metrics" | "patch" | … | "gen-ok" | "gen-bad" (generated output files)
-	genRng     *Rng                                       // for the generated outputs
+	outcome    func(taskID int, failuresSoFar int) string  // "ok" | "exit" | "metrics" | "patch" | … | "gen-ok" | "gen-bad" (generated output files)
+	genRng     *Rng                                        // for the generated outputs
 	genOut     func(taskID int, failuresSoFar int) *c04Out // fixed outputs (corpus); overrides outcome
-	arrivals   func(qn int, step int) []c04Ev             // events fired while a run is blocked
-	boArrivals func(qn int, step int) []c04Ev             // events fired right after a failed run, i.e. during its back-off
-	initial    map[int][]c04Ev                            // per queue: first layout (the rest arrives while the first run is blocked)
+	arrivals   func(qn int, step int) []c04Ev              // events fired while a run is blocked
+	boArrivals func(qn int, step int) []c04Ev              // events fired right after a failed run, i.e. during its back-off
+	initial    map[int][]c04Ev                             // per queue: first layout (the rest arrives while the first run is blocked)
 	maxSteps   int
 	cancels    func(qn int, step int) int // CancelTaskDelay() calls on the queue while a run is blocked (handler running)
 }
@@ -1392,6 +1392,7 @@ func runC04(r *Run) {
 			af    [3]bool
 			other [3]bool
 			fails int
+			share bool // the two bindings of a hook are unnamed: both are called "schedule"
 		}
 		var cfgs []cfg
 		for n := 1; n <= 3; n++ {
@@ -1407,6 +1408,9 @@ func runC04(r *Run) {
 				}
 				for f := 0; f <= 2; f++ {
 					x.fails = f
+					x.share = false
+					cfgs = append(cfgs, x)
+					x.share = true
 					cfgs = append(cfgs, x)
 				}
 			}
@@ -1417,6 +1421,13 @@ func runC04(r *Run) {
 				{Name: "hook01", Num: 1, Queue: 1, Bindings: []c04Binding{{Name: "b2", Crontab: "1 0 1 1 *", AF: false}, {Name: "b3", Crontab: "2 0 1 1 *", AF: true}}},
 				{Name: "hook02", Num: 2, Queue: 1, Bindings: []c04Binding{{Name: "b4", Crontab: "3 0 1 1 *", AF: false}, {Name: "b5", Crontab: "4 0 1 1 *", AF: true}}},
 				{Name: "hook03", Num: 3, Queue: 1, Bindings: []c04Binding{{Name: "b6", Crontab: "5 0 1 1 *"}}},
+			}
+			if x.share {
+				for hi := 0; hi < 2; hi++ {
+					for bi := range hooks[hi].Bindings {
+						hooks[hi].Bindings[bi].CfgName = "-"
+					}
+				}
 			}
 			lay := []c04Ev{{2, 0, false}}
 			for i := 0; i < x.n; i++ {
@@ -1439,7 +1450,7 @@ func runC04(r *Run) {
 			c04Execute(c, r, p)
 		})
 		r.Exhaust = true
-		r.Extra["exhaustive_scope"] = fmt.Sprintf("all %d scripts: layouts of 1..3 schedule tasks over 2 hooks x allowFailure, every task failing 0..2 times", len(cfgs))
+		r.Extra["exhaustive_scope"] = fmt.Sprintf("all %d scripts: layouts of 1..3 schedule tasks over 2 hooks x allowFailure, every task failing 0..2 times, x (bindings with unique names | both bindings of a hook unnamed)", len(cfgs))
 		// the default back-off once (5 s)
 		r.One(2000000, func(c *Case, _ *Rng) {
 			c.Desc = "default ExponentialBackoffFn (5 s initial delay), one failure then success"
